@@ -10,6 +10,8 @@
 (*   "lb" {   "rb" }   "nl" newline   "na" a non-ASCII character           *)
 (*   "n" the letter n (\n is an escape)   "v" the letter v (%v is a verb)  *)
 (*   "q" any other letter   "sp" space                                     *)
+(*   "cc" a control character (BEL, ESC, VT, DEL ...)                      *)
+(*   "ap" a non-printable code point outside the BMP (e.g. a tag character)*)
 (*   "P1", "P2" the placeholders {{ex.p1}}, {{ex.p2}} (messages only)      *)
 (* Outcomes are either a string or "COMPILE-ERROR".                        *)
 (*                                                                         *)
